@@ -46,6 +46,12 @@ def panel_values(panel):
   for i, j, shift in panel.get('mirror', []):
     # geo j = geo i run backwards in time plus a level shift: same spread (tied required impact), different mean
     out[j] = out[i][::-1] + float(shift)
+  for i, j in panel.get('near_copy', []):
+    # geo j = geo i in a 3e-5 larger edition (exact): designs that differ only in the twin score within 1e-4 of each other
+    out[j] = out[i] * (1.0 + 2.0 ** -15)
+  k = panel.get('unit_k', 0)
+  if k:
+    out = [v * (2.0 ** k) for v in out]        # the same panel recorded in another unit (exact)
   return out
 
 
@@ -94,7 +100,8 @@ def build_frame(panel, scale=1.0, rename=None, date_shift=0, permute=True, id_in
     rows_g.append(present_id(name, as_int and all(x.isdigit() for x in (rename.values() if rename else panel['ids']))))
     rows_v.append((float(vals[gi][di]) + delta) * scale)
   df = pd.DataFrame({'date': rows_d, 'geo': rows_g, panel['resp_col']: rows_v})
-  if panel.get('resp_int') and scale == 1.0 and not df[panel['resp_col']].isna().any():
+  if panel.get('resp_int') and scale == 1.0 and not df[panel['resp_col']].isna().any() and (df[panel['resp_col']] % 1 == 0).all() \
+      and df[panel['resp_col']].abs().max() < 2 ** 62:
     df[panel['resp_col']] = df[panel['resp_col']].astype('int64')
   if panel.get('extra_col'):
     df['unused'] = 1.5
@@ -251,6 +258,19 @@ def materialise(spec, scale=1.0, rename=None, date_shift=0, permute=True, id_int
       if r is not None and r[1] < float('inf'):
         kw['budget_range'] = (r[0], r[1])
     sp = Space(c.df, rows, kw, c.resp_col)
+  if not sp.reject and p.get('share_squeeze'):
+    # a share range between the three possible denominators (all geos in the data > assignable geos > admitted geos): a small
+    # group is below the range measured against all geos and above it measured against the admitted geos
+    x = sum(sp.share[g] for g in sp.geos if g not in sp.assignable)
+    free = sorted((g for g in sp.assignable), key=lambda g: sp.share[g])
+    if len(free) >= 4 and x > 0:
+      b = sp.share[free[-1]]
+      s_ = sp.share[free[0]] + sp.share[free[1]]
+      lo = (s_ + s_ / (1 - x)) / 2.0
+      hi = (s_ / (1 - x) + s_ / (1 - x - b)) / 2.0
+      if 0 < lo < hi < min(1.0, b):
+        kw['treatment_share_range'] = (lo, hi)
+        sp = Space(c.df, rows, kw, c.resp_col)
   if not sp.reject and p.get('budget_rel') is not None and kw.get('iroas') and getattr(sp, 'gimp', None):
     # budget cap placed relative to the largest optimistic single-geo budget among the treatable geos (no enumeration of
     # the design space: used for panels with many geos)
@@ -462,7 +482,15 @@ class Space:
     if rng is None:
       return 'in', None
     b = self.budget(T, C)
-    return self._status(b, rng[0], rng[1]), b
+    st_ = self._status(b, rng[0], rng[1])
+    if st_ != 'band' and b == b:
+      # nearly collinear groups: sqrt(1 - rho^2) carries a relative error of ~1e-16 / (1 - rho^2), so the budget itself
+      # is known only to that accuracy - widen the either-way band accordingly
+      rho = R.pearson(self.series(C), self.series(T))
+      err = 2e-15 / max(1e-300, 1.0 - rho * rho)
+      if err > BAND and (abs(b - rng[0]) <= err * abs(rng[0]) or (not math.isinf(rng[1]) and abs(b - rng[1]) <= err * abs(rng[1])) or err >= 0.5):
+        st_ = 'band'
+    return st_, b
 
   def legal(self, T, C):
     """C01 predicate for one design (IDs as strings)."""
@@ -601,7 +629,7 @@ def run_search(case, method, seed_numpy=True, history=None):
       # the data object was used before by a searcher with the full window (same other parameters)
       data = mm.data
       kw0 = dict(case.kwargs)
-      kw0.pop('n_pretest_max', None)
+      kw0['n_pretest_max'] = max(90, len(case.space.dates))       # the full history (the default of 90 may be shorter than the window under test)
       from matched_markets.methodology import geoeligibility, tbrmmdata
       ge = geoeligibility.GeoEligibility(case.elig_df.copy()) if case.elig_df is not None else None
       data = tbrmmdata.TBRMMData(case.df.copy(), case.resp_col, ge)
